@@ -12,6 +12,11 @@ CONSTANTS
   MinStmts = 1
   MinCallOpts = 1
   AllowIntr = FALSE
+  MaxBundle = 1
+  Modes = {"invoke"}
+  AllowKeyed = FALSE
+  FirstOnly = FALSE
+  KeyedStreamDrops = FALSE
   RestoreDropsOpts = FALSE
   CallMode = "subsets"
   SubKind = "graph"
